@@ -669,6 +669,8 @@ def gen_file(seed, tier):
     files = {}
     where = gen.pick(rng, ["cwd", "ancestor", "package", "none", "explicit", "cwd", "ancestor", "preset"])
     text, assign, step = gen_toml(rng)
+    if rng_for(seed, "crlf").random() < 0.15:
+        text = text.replace("\n", "\r\n")            # a file written on Windows (valid TOML; a torn read may end on a bare CR)
     if where == "preset":
         # one of the three SHIPPED preset files, read through the same loader: faults on it are faults too
         which = gen.pick(rng, ["metrics", "imperial", "mixed"])
